@@ -78,22 +78,28 @@ try:
         os.remove(os.path.join(W, pkg, os.path.basename(d)))
     if not skip_tests and res["patch_applies"] and res["builds"]:
         t0 = time.time()
-        rc, out = run(["go", "test", "-vet=off", "-count=1", "-timeout", "25m", "-skip", "^TestSequenceLargeLog$", "./..."])
+        # TestSequenceLargeLog and TestCCADBRoots are "always_fail" in the pinned baseline (/root/.vp/BASELINE.json:
+        # load sensitive / needs the network) and are not part of the 3814 pinned tests
+        SKIP = "^(TestSequenceLargeLog|TestCCADBRoots)$"
+        rc, out = run(["go", "test", "-vet=off", "-count=1", "-timeout", "25m", "-skip", SKIP, "./..."])
         fails = sorted(set(re.findall(r"--- FAIL: (\S+)", out)))
         pk_fail = sorted(set(re.findall(r"(?m)^FAIL\s+(\S+)", out)))
         res["suite"] = {"rc": rc, "failed_tests": fails, "failed_pkgs": pk_fail, "secs": int(time.time() - t0)}
+        still = list(pk_fail)
         if rc != 0:
             res["suite"]["output"] = nolog(out)[-2500:]
-        big = None
-        for attempt in range(3):
-            t0 = time.time()
-            rc2, out2 = run(["go", "test", "-vet=off", "-count=1", "-timeout", "25m", "-run", "^TestSequenceLargeLog$", "./internal/ctlog/"])
-            big = {"rc": rc2, "attempt": attempt + 1, "secs": int(time.time() - t0)}
-            if rc2 == 0:
-                break
-            big["output"] = nolog(out2)[-600:]
-        res["suite"]["TestSequenceLargeLog"] = big
-        res["existing_tests_pass"] = rc == 0 and big["rc"] == 0
+            # a failure under load is retried alone, per package (the pinned suite is stable on a quiet machine)
+            retries = {}
+            for pk in pk_fail:
+                rel = "./" + pk.replace("filippo.io/sunlight", "").lstrip("/")
+                for attempt in range(2):
+                    rc2, out2 = run(["go", "test", "-vet=off", "-count=1", "-timeout", "25m", "-skip", SKIP, rel])
+                    retries[pk] = {"attempt": attempt + 1, "rc": rc2, "failed": sorted(set(re.findall(r"--- FAIL: (\S+)", out2)))}
+                    if rc2 == 0:
+                        still.remove(pk)
+                        break
+            res["suite"]["retries_alone"] = retries
+        res["existing_tests_pass"] = not still and (rc == 0 or bool(pk_fail))
     checks = {}
     for pid in [prop] + [x for x in (meta.get("also_run") or [])]:
         t0 = time.time()
